@@ -20,7 +20,7 @@ func init() {
 		ID:        "C19",
 		Level:     "model_checking",
 		Technique: "bounded exhaustive exploration of registry histories (sequences of application-registered decoration names) x every style string derived from the listing, on the real auto/texttable/decoration packages; oracle = the documented resolution rules",
-		Rule: "registry histories: every sequence of <=3 (thorough <=4) registrations over 9 name shapes (plain, upper-case, containing a dot, two dots, 'texttable.'-prefixed, colliding with a sub-package name in lower and upper case, empty, with trailing dot), each execution using names unique to it; " +
+		Rule: "registry histories: every sequence of <=3 (thorough <=4) registrations over 13 name shapes (plain, upper-case, longer than 64 bytes, starting with 'texttable' or a sub-package name without a dot, containing a dot, two dots, 'texttable.'-prefixed, colliding with a sub-package name in lower and upper case, empty, with trailing dot), each execution using names unique to it; " +
 			"after each history: ListStyles(); for EVERY listed name L every variant in {L, upper(L), title(L), texttable.L, L.x, L.x.y, TEXTTABLE.L} plus {texttable, texttable., nope, texttable.nope, '.'}: auto.New(variant), populate, Render, auto.Render; plus auto.Wrap/auto.Render of tables that already are renderers (other decoration, failed style, custom decoration, csv) under plain styles - the style string decides; " +
 			"non-trivial = history with >=1 registration or a variant different from the listed name; distinct by (history shape, name kind, variant)",
 		Assumptions: []string{"case variants of decoration names are not asserted (case-insensitivity is promised for sub-package names only)",
@@ -52,7 +52,7 @@ func runC19(x *X) {
 		f    string
 	}{
 		{"plain", "zz-%s"}, {"upper", "Fancy-%s"}, {"dotted", "a%s.b"}, {"two-dots", "a%s.b.c"}, {"texttable-prefixed", "texttable.zz%s"},
-		{"trailing-dot", "zz%s."}, {"subpackage-lower", "csv"}, {"subpackage-upper", "JSON"}, {"empty", ""}, {"texttable-itself", "texttable"},
+		{"trailing-dot", "zz%s."}, {"texttable-as-prefix", "texttable-zz%s"}, {"subpackage-as-prefix", "csv-zz%s"}, {"long-name", "zz-%s-" + strings.Repeat("n", 70)}, {"subpackage-lower", "csv"}, {"subpackage-upper", "JSON"}, {"empty", ""}, {"texttable-itself", "texttable"},
 	}
 	maxHist := x.Pick(3, 4)
 	x.Explore("styles", ExploreOpts{ShardDepth: 2, Bound: fmt.Sprintf("registry histories of <=%d registrations over %d name shapes x every listed name x 7 variants + 5 fixed strings", maxHist, len(shapes))}, func(c *Chooser) {
@@ -227,7 +227,8 @@ func runC19(x *X) {
 				x.Fail("C19.default_and_unknown", tags, "auto.New(%q) gives %s/err %v and differs from the default decoration's output", v, vt, ve)
 			}
 		}
-		for _, v := range []string{"nope-" + serial, "texttable.nope-" + serial, "texttable.", ".", "nope-" + serial + ".csv", "texttable.nope-" + serial + ".utf8-light"} {
+		for _, v := range []string{"nope-" + serial, "texttable.nope-" + serial, "texttable.", ".", "nope-" + serial + ".csv", "texttable.nope-" + serial + ".utf8-light",
+			"texttablex" + serial, "TextTable-nosuch" + serial, "csvx" + serial, "htmlfoo" + serial, "jsonx" + serial, "markdownish" + serial, "nope-" + serial + strings.Repeat("n", 70)} {
 			if c19Resolvable(v) {
 				continue // some registration (possibly an earlier execution's, the registry cannot be reset) makes it a known name
 			}
